@@ -14,11 +14,14 @@ LaySmall == L1 \cup L2 \cup L3
 LayMid == LaySmall \cup L4
 LayBig == LayMid \cup L5 \cup L6
 NoCounts == {}
+SmallCounts == {0, 3, 99}
+SmallLens == {2, 4}
 Base1 == {1}
 BaseAll == 1..NH
 HostCounts == {-1, 0, 1, 2, 3, 4, 99}
 HostLens == {0, 1, 2, 3, 4}
 AllKinds == {"tx", "g2", "g3"}
 MalAll == {"blk", "tx", "batch", "blkreq", "blkresp", "peermsg", "ltraw", "ltdup"}
+MalNet == {"dlreply", "dlserve", "peerreply", "peerserve", "proof"}
 MalNone == {}
 ====
